@@ -15,7 +15,7 @@ CONSTANTS
   SynKinds = {"array", "dict", "mixed", "parens", "contentarray", "contentq", "contentdict"}
   Limit = 100
   BigDepth = 10000
-  HugeDepth = 1000000
+  HugeDepth = 100000
   MutTargets = {"ttf", "certpem", "certder", "p7c", "pkcs7", "json", "csv"}
   MutOps = {"trunc", "len0", "lenmax", "lenplus1", "lenminus1"}
   MutK = 12
